@@ -325,6 +325,16 @@ enum CellArrayKind {
     ArrayFormula(i32, i32),
 }
 
+/// `<v>` of a numeric cell: anything that is not a finite number (inf, NaN, 1e999, garbage) reads as 0
+fn parse_finite_number(cell_value: Option<&str>) -> f64 {
+    cell_value
+        .unwrap_or("0")
+        .parse::<f64>()
+        .ok()
+        .filter(|v| v.is_finite())
+        .unwrap_or(0.0)
+}
+
 // FIXME
 #[allow(clippy::too_many_arguments)]
 fn get_cell_from_excel(
@@ -370,14 +380,14 @@ fn get_cell_from_excel(
                 if let Some(anchor) = anchor_cell {
                     Cell::SpillCell {
                         v: SpillValue::Number(
-                            cell_value.unwrap_or("0").parse::<f64>().unwrap_or(0.0),
+                            parse_finite_number(cell_value),
                         ),
                         s: cell_style,
                         a: anchor,
                     }
                 } else {
                     Cell::NumberCell {
-                        v: cell_value.unwrap_or("0").parse::<f64>().unwrap_or(0.0),
+                        v: parse_finite_number(cell_value),
                         s: cell_style,
                     }
                 }
@@ -485,7 +495,7 @@ fn get_cell_from_excel(
         match cell_type {
             "b" => make_cell(FormulaValue::Boolean(cell_value == Some("1"))),
             "n" => make_cell(FormulaValue::Number(
-                cell_value.unwrap_or("0").parse::<f64>().unwrap_or(0.0),
+                parse_finite_number(cell_value),
             )),
             "e" => {
                 // For compatibility reasons Excel does not put the value #SPILL! but adds it as a metadata
